@@ -577,7 +577,11 @@ func cellSortedBeforeRead(a *FnA, cell *ssa.Alloc, ml *mapLoop) (bool, string) {
 // keyedUpdateHelper: the callee does nothing but map updates whose key is a parameter bound, at this
 // call, to the range key (plus pure computation): distinct iterations touch distinct entries.
 func keyedUpdateHelper(cal *ssa.Function, args []ssa.Value, key ssa.Value) bool {
-	if cal == nil || cal.Blocks == nil || key == nil {
+	return keyedUpdateHelperRec(cal, args, key, 0)
+}
+
+func keyedUpdateHelperRec(cal *ssa.Function, args []ssa.Value, key ssa.Value, depth int) bool {
+	if cal == nil || cal.Blocks == nil || key == nil || depth > 2 {
 		return false
 	}
 	n := 0
@@ -608,9 +612,24 @@ func keyedUpdateHelper(cal *ssa.Function, args []ssa.Value, key ssa.Value) bool 
 					continue
 				}
 				sc := x.Common().StaticCallee()
-				if sc == nil || !pureExternal[sc.String()] {
+				if sc == nil {
 					return false
 				}
+				if pureExternal[sc.String()] {
+					continue
+				}
+				// a further helper that is handed the key: judged the same way, the key being the
+				// parameter of this function that is bound to the range key
+				var keyParam ssa.Value
+				for i, q := range cal.Params {
+					if i < len(args) && stripConv(args[i]) == key {
+						keyParam = q
+					}
+				}
+				if keyParam == nil || !keyedUpdateHelperRec(sc, callArgs(x.Common()), keyParam, depth+1) {
+					return false
+				}
+				n++
 			case *ssa.Send, *ssa.Go, *ssa.Defer, *ssa.Panic:
 				return false
 			}
